@@ -118,9 +118,14 @@ def _(n, T):
     return [F(n, "void", [P("a", "arr_inout", T, n="n"), P("n", "implied", "int", of="a")])]
 
 
-@shape("cstr_in", wraps=ALLW, doc="strings.yaml; docs/types.rst char")
+@shape("cstr_in", doc="strings.yaml; docs/types.rst char")
 def _(n, T):
     return [F(n, "int", [P("s", "cstr_in")])]
+
+
+@shape("cstr_in_nc", wraps=("c", "fortran"), doc="strings.yaml explicit1: char *name +intent(in)")
+def _(n, T):
+    return [F(n, "int", [P("s", "cstr_in", nonconst=True)])]
 
 
 @shape("cstr_out", doc="strings.yaml passCharPtr")
@@ -133,7 +138,7 @@ def _(n, T):
     return [F(n, "void", [P("s", "cstr_inout")])]
 
 
-@shape("cstr_res", wraps=ALLW, doc="strings.yaml getCharPtr1")
+@shape("cstr_res", doc="strings.yaml getCharPtr1")
 def _(n, T):
     return [F(n, "cstr", [P("a", "val", "int")])]
 
